@@ -61,7 +61,9 @@ for round in $(seq 0 $((rounds-1))); do
   if [ "$mode" = replay ]; then
     "work/bin/$bin.$$" --replay "$arg"; rc=$?
   else
-    DV_ROUND=$round DV_ROUNDS=$rounds "work/bin/$bin.$$" "$prop" "$arg"; rc=$?
+    # watchdog: a run that does not end is an infrastructure problem (exit 2), never a verdict
+    if [ "$arg" = quick ]; then wd=${VERIF_WATCHDOG_S:-2400}; else wd=${VERIF_WATCHDOG_S:-14400}; fi
+    DV_ROUND=$round DV_ROUNDS=$rounds timeout --signal=KILL "$wd" "work/bin/$bin.$$" "$prop" "$arg"; rc=$?
   fi
   rm -f "work/bin/$bin.$$"
   # anything but 0/1 (signal, abort, harness panic) is an infrastructure problem
